@@ -385,6 +385,23 @@ def impl_inv(case):
 
 
 # ---------------------------------------------------------------- evaluation
+def detect_variant(ctx):
+    """Which of the two modelled code shapes does the tree contain: the pinned one or the one
+    after fixes/c16-saturate-64bit.diff?  Decided by behaviour at one distinguishing input per
+    function; everything else is then compared exactly with that variant of the model (and the
+    Lean rule is applied to every output whichever variant was detected)."""
+    import numpy as np
+    from rig import type_casts as tc
+    var = {}
+    with np.errstate(all="ignore"):
+        r = call(lambda: int(tc.float_to_fix(True, 64, 0)(2.0 ** 63)))
+        var["fix"] = "repaired" if r.get("ok") == 2 ** 63 - 1 else "pinned"
+        r = call(lambda: int(tc.NumpyFloatToFixConverter(True, 64, 0)(np.array([2.0 ** 63]))[0]))
+        var["np"] = "repaired" if r.get("ok") == 2 ** 63 - 1 else "pinned"
+    ctx.extra["code_variant"] = var
+    return var
+
+
 def fmt_req(fmt, op, **kw):
     d = {"suite": "c16", "op": op, "signed": fmt["signed"], "bits": fmt["bits"], "frac": fmt["frac"]}
     d.update(kw)
@@ -396,8 +413,9 @@ def eval_conv(ctx, cases):
     for c in cases:
         c["impl"] = impl_conv(c)
         fmt, vs = c["fmt"], c["vs"]
+        var = ctx.extra.get("code_variant") or detect_variant(ctx)
         for name, op in (("fp", "float_to_fp"), ("fix", "float_to_fix"), ("np", "np_float_to_fix")):
-            reqs.append(fmt_req(fmt, op, vs=vs))
+            reqs.append(fmt_req(fmt, op, vs=vs, repaired=var.get(name) == "repaired"))
             idx.append((c, "m_" + name))
         # oracles on the implementation's outputs (only where it returned a value)
         for name, op in (("fp", "spec_fp"), ("np", "spec_fp"), ("fix", "spec_fix")):
